@@ -76,6 +76,86 @@ CLAIMS = {
             "That secp256k1 (Prim/Secp256k1.v, k256) is a prime-order group obeying the stated laws is assumed (standard mathematics, "
             "validated by vectors/differential runs only); HMAC-SHA256/RFC 6979 DRBG are executable re-implementations; the digest "
             "enters the DRBG unreduced (dependency behaviour), hence RFC 6979 equality is claimed for digests < n only, as the property states."),
+    "C01": ("Coq theorems (Props/C01.v, for every function sha256 with 32-byte outputs): a phrase is accepted IFF its white-space separated pieces "
+            "are the words of the BIP-39 index sequence of some entropy of 16/20/24/28/32 bytes (so: 12/15/18/21/24 list words with the "
+            "right checksum bits); every other count, an unknown word, a checksum mismatch is an error; printing the mnemonic of an "
+            "entropy gives the BIP-39 phrase and its length; parse(print) and print(parse) round trips; the 11-bit unpacking loop "
+            "invariant; totality; and, over the word list REGENERATED from english.txt on every run: 2048 words, strictly sorted, "
+            "lower-case ASCII (finite checks by vm_compute, bound stated). Model vs Mnemonic::from_phrase on ~21k phrases per run "
+            "(all 2048 final words x 5 lengths, every word in every non-final position, counts 0..40) with an independent Python BIP-39.",
+            "SHA-256 is an executable Gallina re-implementation validated by vectors/differentially, opaque to the theorems; "
+            "split_whitespace / binary_search semantics assumed (the latter justified by the sortedness theorem)."),
+    "C02": ("Coq theorems (Props/C02.v, for arbitrary sha256 / pbkdf2 / nfkd functions): seed = pbkdf2(utf8(canonical single-space phrase), "
+            "utf8(nfkd(\"mnemonic\" ++ passphrase)), 2048, 64); the white-space layout of the input is irrelevant; NFKD-equivalent "
+            "passphrases give the same seed — proved from nfkd(ascii ++ p) = ascii ++ nfkd p, which is itself proved for the "
+            "table-driven NFKD (C02_nfkd_equiv_concrete); the salt is \"mnemonic\" followed by the normalised passphrase; 64 bytes. "
+            "Model (Gallina PBKDF2 + NFKD) vs Mnemonic::seed on every run, with Python hashlib/unicodedata and the TREZOR vectors.",
+            "PBKDF2/HMAC/SHA-512 and the NFKD table (generated from Python unicodedata 14) are executable re-implementations validated "
+            "differentially against the crates; generators stay within code points assigned in Unicode 14."),
+    "C06": ("Coq theorems (Props/C06.v): for well-formed transactions the code-shaped encoder emits exactly [type byte] ++ enc(spec tree) for "
+            "legacy / EIP-2930 / EIP-1559 with the field orders of the property; the signed digest is keccak of the unsigned tree with "
+            "[chainId,0,0] appended iff legacy with chain id; kind dispatch on JSON keys; every field is the field-level parse of its key "
+            "(C13 exactness transfers), absent/null recipient = empty string; parsed transactions are well-formed; a strict decoder "
+            "recovers the signed tree (from C07). Model vs Transaction::{encode,signing_message} on every run; on really signed "
+            "transactions the bytes are decoded by an independent strict decoder and the sender recovered (Python), and the model "
+            "composition sighash -> RFC 6979 signature -> encoding reproduces the implementation's bytes.",
+            "serde derive semantics of the transaction structs as stated in Model/Tx.v; Keccak/secp256k1/RFC 6979 are executable "
+            "re-implementations; tx_fits (payload < 2^64 bytes) is a premise of the encoding theorems."),
+    "C08": ("Coq theorems (Props/C08.v, Props/C08v.v): encodeType = primary type followed by every transitively referenced struct type "
+            "exactly once in byte-wise name order, the primary never repeated, for EVERY type graph incl. self/mutual recursion "
+            "(work-list invariant; fuel formula proved sufficient; Err iff a needed type is undefined; text order = UTF-8 byte order); "
+            "encode_value refines the EIP-712 typed-value encoding (accepted iff the JSON denotes a typed value of the declared "
+            "type, then the word is enc_data); digest = keccak(0x19 0x01 || hashStruct(domain) || hashStruct(message)). Model vs "
+            "TypedData on random type graphs / all atomic types / member-order permutations on every run, plus the encodeType "
+            "string through the hook and an independent Python EIP-712 encoder.",
+            "Keccak is an executable re-implementation; number/byte/address leaf parsers enter the value theorems through the "
+            "stated prims_* premises (discharged for the real primitives up to serde_json's token ranges)."),
+    "C09": ("Coq theorems (Props/C09.v + C09_reject in Props/C08v.v): uintN accepted only for 0 <= v < 2^N (negatives refused), intN only "
+            "for -2^(N-1) <= z < 2^(N-1), bytesN only with exactly N bytes, fixed arrays only with exactly n elements, structs only "
+            "with exactly the declared members, undefined or unresolvable struct types, wrong JSON kinds -> Err; an Err anywhere "
+            "inside arrays/structs makes the whole Err; compute = Err produces no digest; totality. Model vs TypedData on the "
+            "exhaustive width x boundary x spelling matrix, bytesN N-1/N/N+1, array sizes, member sets, kind matrix and offences "
+            "planted in random documents on every run; CLI exit status / empty stdout.",
+            "Leaf number parsers satisfy prims_ranged for serde_json tokens (num_token_ok); inputs >= 4 GiB not exercised."),
+    "C11": ("Coq theorems (Props/C11.v): the sign command refuses a legacy transaction without chain id unless the override flag is set "
+            "(and refuses nothing else); with the override v = 27 + parity; v = 35 + 2c + parity as an integer whenever 2c+36 < 2^256 "
+            "and the parser refuses every larger legacy chain id before anything is signed (the overflow branch is unreachable from any "
+            "parsed document); the unsigned legacy payload ends in [c,0,0], typed payloads start with c; transactions with different "
+            "chain ids have different signing payloads (RLP injectivity), so equal digests would be an explicit Keccak collision. "
+            "Real binary on legacy/typed x chain ids x flags x output modes on every run: exit status, exact stdout vs the model, "
+            "integer v, signer recovery, cross-chain non-recovery.",
+            "Keccak collision-freeness on the two payloads is a named premise of the cross-chain clause; clap flag parsing black-box."),
+    "C12": ("Coq theorems (Props/C12.v) over an explicit entropy oracle: a supported length L makes exactly one request of L*4/3 bytes; the "
+            "mnemonic's entropy IS the returned byte string, its length is L and the printed phrase is the BIP-39 encoding of exactly "
+            "those bytes (injective in the entropy); unsupported lengths are refused without a request; a failing source gives an "
+            "error and no output; every generated phrase parses back — partial: the unpredictability of the kernel's bytes is outside "
+            "any model. Real binary under an LD_PRELOAD getentropy shim for L = 0..40 with adversarial patterns: exact phrase, request "
+            "log, failure injection; without the shim repeated invocations differ and re-parse.",
+            "The shim replaces libc getentropy; SHA-256 opaque; vanity-search failure at the k-th request is covered by C18's theorems and check."),
+    "C13": ("Coq theorems (Props/C13.v, Props/C13tx.v): permissive_u256 accepts exactly the texts/tokens that denote an integer in [0,2^256) "
+            "and returns that integer (decimal, 0x hex either case and padded, u64 tokens, integral doubles below 2^53 all give the "
+            "same value -> same transaction -> identical encoding); negative numbers/strings, fractions, doubles >= 2^53, values >= 2^256, "
+            "empty strings, bad digits, wrong JSON kinds are errors; byte fields iff 0x + even hex; addresses 20 bytes, storage keys 32; "
+            "legacy chain-id bound. Model vs the library through every numeric field of every kind on every run; the exactness clause "
+            "is additionally evaluated on the literal TEXT with exact rationals (known finding K1: float literals with > 15 significant "
+            "digits are rounded by serde_json before hdwallet sees them).",
+            "serde_json tokenisation is outside the model (the model receives serde_json's own parse); ethnum/hex/ethaddr semantics as stated in Model/Num.v."),
+    "C16": ("Coq theorems (Props/C16.v, all primitives universally quantified): the account selector (default = index 0 = m/44'/60'/0'/0/0, "
+            "index i < 2^31 -> m/44'/60'/0'/0/i, larger refused, --hd-path parsed); address/export/public-key print exactly the EIP-55 "
+            "address / 0x secret / uncompressed key of private_key(phrase, passphrase, selector); every sign subcommand prints the "
+            "selected key's signature over exactly the digest the matching hash subcommand prints (message, typed data, transaction), "
+            "sign raw signs the digest as is, hash data = keccak, --message-hash = hashStruct(message) — partial: clap's parsing is "
+            "black-box. Real binary on mnemonics x passphrases x selectors x every subcommand, flags vs environment, selector "
+            "conflicts, file vs stdin, with the model's account pipeline and an independent Python stack as oracles.",
+            "clap (flag/env equivalence, conflicts_with) is exercised, not modelled; all primitives are executable re-implementations."),
+    "C17": ("Coq theorems (Props/C17.v): for every parser and command model — phrases, to_phrase, random, HD paths, account indices, "
+            "signatures, keys, derivation, transaction JSON, encoding, the sign command, v, RLP headers, number/byte fields, member type "
+            "strings with any number of suffixes, the encodeType work-list (fuel), domain check, typed-data values and documents, hex "
+            "input, vanity prefixes — no Panic and no OutOfFuel outcome is reachable (every unwrap/index/slice/overflow site is an explicit "
+            "Panic branch in the model) — partial: the compiled binary's stack and wall-clock behaviour are only exercised. "
+            "Every entry point is driven with boundary, structure-aware mutated and random inputs under catch_unwind and by exit status "
+            "on every run (debug build; release too in the thorough tier).",
+            "Bounds from the property (nesting <= 128, suffix depth <= 64, workers <= 64, prefixes <= 3 digits); the vanity search itself is not claimed to terminate."),
     "C07": ("Coq theorems (Props/C07.v: the code-shaped rlp::{len,bytes,uint,list} equal the Yellow-Paper encoder, the u8 header "
             "arithmetic never overflows, strict-decoder round trip dec(enc i ++ rest) = (i, rest) for every item tree, the strict "
             "decoder accepts only canonical encodings, injectivity / prefix-freeness, minimal integers) for unbounded payloads; "
